@@ -1,6 +1,8 @@
 /-
   BB.Props.C04Transfers — compressed pc-relative transfers to labels, single `-c` run, program level.
 
+  All statements are over `layoutOf H true items = .ok lay` (Props/C04; a function of the inputs): `lay.aligned`
+  is the list held after resolve_aligns, its tables are the returned ones.
   (4) `offset_shrinks`: for every compressed instruction of the list held after resolve_aligns that a
       compression pass decided at position `p` against the label table `L`, and EVERY label `ref` of the
       program: the final distance `dfin = r.labels[ref] − off(i)` is `Closer` to 0 than the distance
@@ -18,6 +20,7 @@
       `resolve_instructions` — a `-c` failure is never caused by such a compression decision.
 -/
 import BB.Lemmas.TransferFinal
+import BB.Lemmas.LayoutAnchor
 import BB.Props.C04Program
 import BB.Props.C12
 namespace BB.Props.C04
@@ -41,27 +44,35 @@ theorem land_offset {H : Hooks} {constants L : Dict} {p : Int} {items out : List
       omega
 
 /-- **(4) offset_shrinks.**  In a successful `-c` run (item sizes non-negative), for every compressed
-    instruction item `i` of the list held after resolve_aligns: it stood compressed in the aliased
-    source, or it was decided by a compression pass at position `p` against the table `L`, and then for
+    instruction item `i` of `lay.aligned` (the list held after resolve_aligns): it is the aliased image of a
+    compressed instruction item of the SOURCE `items`, or it was decided by a compression pass at position `p` against the table `L`, and then for
     every label `ref` of the program the decision-time distance `vdec = L[ref] − p` and the final
     distance `dfin = r.labels[ref] − off(i)` satisfy `Closer vdec dfin`:
     `0 < vdec → 0 < dfin ≤ vdec` and `vdec ≤ 0 → vdec ≤ dfin ≤ 0`. -/
 theorem offset_shrinks (H : Hooks) (items : List Item) (r : AsmResult) (hnn : NonNeg items)
     (h : assembleItems H true items [] [] = .ok r) :
-    ∃ items2 items7 out : List Item, Expands items items7 ∧ Land H r.constants r.labels 0 items7 out ∧
-      r.bytes = blobBytes out ∧
-      ∀ (i : Nat) (hi : i < items7.length) line cf, items7[i] = .instr line cf → cf.isCompressed = true →
-        Item.instr line cf ∈ resolveRegisterAliases items2 r.constants ∨
+    ∃ (lay : Layout) (out : List Item), layoutOf H true items = .ok lay ∧ lay.labels = r.labels ∧
+      lay.constants = r.constants ∧ Land H r.constants r.labels 0 lay.aligned out ∧ r.bytes = blobBytes out ∧
+      ∀ (i : Nat) (hi : i < lay.aligned.length) line cf, lay.aligned[i] = .instr line cf → cf.isCompressed = true →
+        (∃ cf0, Item.instr line cf0 ∈ items ∧ cf0.isCompressed = true ∧ cf = cf0.mapRegs (aliasReg r.constants)) ∨
         ∃ ins c preds p L, DecidedAt H r.constants line cf ins c preds p L ∧
           ∀ ref ∈ labelNames items, ∃ vdec dfin, L.get ref = some (vdec + p) ∧
             r.labels.get ref = some (dfin + ((blobBytes (out.take i)).length : Int)) ∧ Closer vdec dfin := by
-  obtain ⟨items1, items2, items3, items4, items6, items7, out, labels2, labels3, labels4, labels6, e7, h1, h2, h3, h4,
-    h6, h7, hland, hbytes⟩ := assemble_stages_all H true items r h
-  refine ⟨items2, items7, out, e7, hland, hbytes, ?_⟩
+  obtain ⟨items1, items2, items3, items4, items6, items7, out, labels2, labels3, labels4, labels6, hlay, e7, h1, h2, h3, h4,
+    h6, h7, hland, hbytes⟩ := assemble_anchor H true items r h
+  refine ⟨⟨items6, items7, r.constants, r.labels⟩, out, hlay, rfl, rfl, hland, hbytes, ?_⟩
   intro i hi line cf hit hc
+  simp only at hit hi
+  have hsrc : Item.instr line cf ∈ resolveRegisterAliases items2 r.constants →
+      ∃ cf0, Item.instr line cf0 ∈ items ∧ cf0.isCompressed = true ∧ cf = cf0.mapRegs (aliasReg r.constants) := by
+    intro ho
+    obtain ⟨cf0, hm0, e⟩ := source_of_aliased h1 h2 ho
+    refine ⟨cf0, hm0, ?_, e⟩
+    rw [e, mapRegs_isCompressed] at hc
+    exact hc
   rw [land_offset hland i (Nat.le_of_lt hi)]
   rcases compressed_origin_dist H r.constants hnn h1 h2 h3 h4 h6 h7 i hi hit hc with ho | hd
-  · exact Or.inl ho
+  · exact Or.inl (hsrc ho)
   · exact Or.inr hd
 
 /-- reading the resolved, encoded compressed item once `rule_sound` has spoken -/
@@ -94,10 +105,10 @@ theorem compressed_item_read {H : Hooks} {constants L : Dict} {line line' : Line
 theorem assemble_compressed_transfer_sound (H : Hooks) (items : List Item) (r : AsmResult) (hnn : NonNeg items)
     (hlit : ∀ env line p, LitOK (evalAt H env line p))
     (h : assembleItems H true items [] [] = .ok r) :
-    ∃ items2 items7 out : List Item, Expands items items7 ∧ Land H r.constants r.labels 0 items7 out ∧
-      r.bytes = blobBytes out ∧
-      ∀ (i : Nat) (hi : i < items7.length) line cf, items7[i] = .instr line cf → cf.isCompressed = true →
-        Item.instr line cf ∈ resolveRegisterAliases items2 r.constants ∨
+    ∃ (lay : Layout) (out : List Item), layoutOf H true items = .ok lay ∧ lay.labels = r.labels ∧
+      lay.constants = r.constants ∧ Land H r.constants r.labels 0 lay.aligned out ∧ r.bytes = blobBytes out ∧
+      ∀ (i : Nat) (hi : i < lay.aligned.length) line cf, lay.aligned[i] = .instr line cf → cf.isCompressed = true →
+        (∃ cf0, Item.instr line cf0 ∈ items ∧ cf0.isCompressed = true ∧ cf = cf0.mapRegs (aliasReg r.constants)) ∨
         ∃ ins c preds p L, DecidedAt H r.constants line cf ins c preds p L ∧
           (c ∈ transferRules → ∀ ref, ins.imm? = some (.offset ref) → ref ∈ labelNames items →
             r.constants.get ref = none →
@@ -108,13 +119,21 @@ theorem assemble_compressed_transfer_sound (H : Hooks) (items : List Item) (r : 
               (∃ args w, rins.args = some args ∧ encode rins.name args = .ok w) →
               ∃ w ci, (r.bytes.drop (blobBytes (out.take i)).length).take 2 = leBytes 2 w ∧
                 decode16 w = some ci ∧ ci.legal = true ∧ ∀ s, execC ci s = exec i32 2 s) := by
-  obtain ⟨items1, items2, items3, items4, items6, items7, out, labels2, labels3, labels4, labels6, e7, h1, h2, h3, h4,
-    h6, h7, hland, hbytes⟩ := assemble_stages_all H true items r h
-  refine ⟨items2, items7, out, e7, hland, hbytes, ?_⟩
+  obtain ⟨items1, items2, items3, items4, items6, items7, out, labels2, labels3, labels4, labels6, hlay, e7, h1, h2, h3, h4,
+    h6, h7, hland, hbytes⟩ := assemble_anchor H true items r h
+  refine ⟨⟨items6, items7, r.constants, r.labels⟩, out, hlay, rfl, rfl, hland, hbytes, ?_⟩
   intro i hi line cf hit hc
+  simp only at hit hi
+  have hsrc : Item.instr line cf ∈ resolveRegisterAliases items2 r.constants →
+      ∃ cf0, Item.instr line cf0 ∈ items ∧ cf0.isCompressed = true ∧ cf = cf0.mapRegs (aliasReg r.constants) := by
+    intro ho
+    obtain ⟨cf0, hm0, e⟩ := source_of_aliased h1 h2 ho
+    refine ⟨cf0, hm0, ?_, e⟩
+    rw [e, mapRegs_isCompressed] at hc
+    exact hc
   have hoff := land_offset hland i (Nat.le_of_lt hi)
   rcases decided_holds_final H r.constants hnn h1 h2 h3 h4 h6 h7 i hi hit hc with ho | ⟨ins, c, preds, p, L, hdec, hdist, _, htr⟩
-  · exact Or.inl ho
+  · exact Or.inl (hsrc ho)
   · refine Or.inr ⟨ins, c, preds, p, L, hdec, ?_⟩
     obtain ⟨hnc, hnaj, hmem, hall, hcf⟩ := hdec
     intro hct ref himm hr hcn rins i32 hres hden hacc
